@@ -184,6 +184,36 @@ pub fn run(ctx: &Ctx) -> i32 {
     crate::props::behave::run(ctx, &behaviour())
 }
 
+/// a rename that collides with the key of another shown field: the builders print repeated keys without complaint, so the
+/// request is legal and its output is defined
+fn adjust(s: &mut TypeSpec, d: &mut Dna) -> bool {
+    for v in s.variants.iter_mut() {
+        let n = v.fields.len();
+        if n < 2 || !d.chance(25) {
+            continue;
+        }
+        let keys: Vec<String> = v.fields.iter().enumerate().map(|(i, f)| f.name.clone().unwrap_or_else(|| format!("_{i}"))).collect();
+        let renamed: Vec<usize> = (0..n).filter(|i| v.fields[*i].attr_for(Tr::Debug).map(|a| a.name().is_some() && !a.ignore()).unwrap_or(false)).collect();
+        if renamed.is_empty() {
+            continue;
+        }
+        let i = *d.choose(&renamed);
+        let mut j = d.pick(n - 1);
+        if j >= i {
+            j += 1;
+        }
+        let key = keys[j].trim_start_matches("r#").to_string();
+        for a in v.fields[i].attrs.iter_mut().filter(|a| a.tr == Tr::Debug) {
+            for (p, _) in a.params.iter_mut() {
+                if let FParam::Name(nm) = p {
+                    *nm = key.clone();
+                }
+            }
+        }
+    }
+    true
+}
+
 pub fn behaviour() -> Behaviour {
     Behaviour {
         prop: "C06",
@@ -194,7 +224,7 @@ pub fn behaviour() -> Behaviour {
                non-trivial = a non-default name/named_field/rename/ignore/method somewhere, or the twin clause; distinct by definition hash",
         salt: 0xC06,
         cfg,
-        adjust: no_adjust,
+        adjust,
         render,
         quick: 7000,
         thorough: 20000,
